@@ -3,6 +3,7 @@
 package webp
 
 import (
+	"github.com/deepteams/webp/internal/bitio"
 	"github.com/deepteams/webp/internal/dsp"
 	"github.com/deepteams/webp/internal/lossy"
 )
@@ -39,3 +40,23 @@ func VerifDspPredChroma8(mode int, buf []byte, off int)     { dsp.PredChroma8[mo
 func VerifDspClipTables() (s1, s2 []int8, c1, a0 []uint8)   { return dsp.VerifClipTables() }
 
 const VerifDspBPS = dsp.BPS
+
+// VerifBoolWriterRun drives a bitio.BoolWriter with a sequence of operations and returns
+// the finished bytes. kind 0: PutBit(a, b) (bit, prob); 1: PutBitUniform(a); 2: PutBits(a, b)
+// (value, count); 3: PutSignedBits(a, b) (value, count).
+func VerifBoolWriterRun(ops [][3]int) []byte {
+	bw := bitio.NewBoolWriter(0)
+	for _, op := range ops {
+		switch op[0] {
+		case 0:
+			bw.PutBit(op[1], op[2])
+		case 1:
+			bw.PutBitUniform(op[1])
+		case 2:
+			bw.PutBits(uint32(op[1]), op[2])
+		case 3:
+			bw.PutSignedBits(op[1], op[2])
+		}
+	}
+	return append([]byte(nil), bw.Finish()...)
+}
